@@ -526,6 +526,11 @@ func (x *Exec) run() (err error) {
 			continue // its type lives in a package this check does not load: no contract in scope can mention it
 		}
 		st.ghost[name] = x.havocSpec(ty, "ghost."+name)
+		if ty.Go != nil {
+			// references remembered in ghost state are nil or allocated, like any other live reference
+			x.assume(st, x.refFacts(st, st.ghost[name], ty.Go))
+			x.assume(st, x.typeFacts(st.ghost[name], ty.Go))
+		}
 	}
 	st.ghost["$perm"] = &Val{K: VScalar, T: x.D.fresh("perm0", arr(SInt, SInt))}
 	st.ghost["$perminv"] = &Val{K: VScalar, T: x.D.fresh("perminv0", arr(SInt, SInt))}
